@@ -73,8 +73,14 @@ def handleInv (args : List (String × String)) : String :=
     s!"ok wf={b (filesWFB fs)} covered={b (coveredB fs)} l0adj={b (adjacent (listLevel fs 0))} maxl1={maxL1 fs} snapmax={snapMax fs}"
   | none => "bad-op"
 
+/-- `addok N=<latest> G=<file> F=…` → does the new file `G` satisfy the growth side condition of `retention_seq`? -/
+def handleAddOK (args : List (String × String)) : String :=
+  match natArg? args "N", (arg? args "G").bind parseFile?, filesArg? args "F" with
+  | some n, some g, some fs => if addOKB g fs n then "ok 1" else "ok 0"
+  | _, _, _ => "bad-op"
+
 def retentionHandlers : Handlers :=
   [("snapret", handleSnapRet), ("txidret", handleTxidRet), ("l0ret", handleL0Ret),
-   ("cascade", handleCascade), ("rep", handleRep), ("inv", handleInv)] ++ planHandlers
+   ("cascade", handleCascade), ("rep", handleRep), ("inv", handleInv), ("addok", handleAddOK)] ++ planHandlers
 
 end Litestream.Driver
